@@ -57,7 +57,15 @@ def _dense(t_list, X):
     from FDApy.representation.values import DenseValues
 
     arg = DenseArgvals({f"input_dim_{k}": np.array(fl(t)) for k, t in enumerate(t_list)})
-    return DenseFunctionalData(arg, DenseValues(np.array(X, dtype=float)))
+    X = np.asarray(X)
+    return DenseFunctionalData(arg, DenseValues(X if X.dtype.kind == "i" else np.array(X, dtype=float)))
+
+
+def _arr(comp):
+    """Exact rationals -> array; integer dtype when the component asks for it (DenseValues keeps it)."""
+    if comp.get("int"):
+        return np.array([[int(F(x)) for x in r] for r in comp["X"]], dtype=np.int64)
+    return np.array(fl(_Fm(comp["X"])))
 
 
 def _irregular(pts, vals, labels=None):
@@ -181,6 +189,13 @@ def _affine(rng: Rng, X):
     return [[a * x + off for x in r] for r in X]
 
 
+def _maybe_int(rng: Rng, X):
+    """With probability 0.15: integer-valued curves, stored with an integer dtype."""
+    if rng.random() < 0.15:
+        return [[Fraction(round(x)) for x in r] for r in X], True
+    return X, False
+
+
 def _opts(rng: Rng):
     return dict(stand=rng.random() < 0.4, integ=rng.choice(["trapz", "trapz", "simpson"]), center=rng.random() < 0.7,
                 w=rs(rng.choice([Fraction(4), Fraction(1, 4), Fraction(3), Fraction(10)])))
@@ -190,10 +205,12 @@ def _dense_comp(rng: Rng, N, two_d=False, uniform=None):
     if two_d:
         m1, m2 = rng.randint(2 if not uniform else 3, 5), rng.randint(2 if not uniform else 3, 5)
         X, ck = _curves(rng, N, m1 * m2)
-        return dict(type="dense2", t1=[rs(x) for x in _grid(rng, m1, uniform)], t2=[rs(x) for x in _grid(rng, m2, uniform)], X=_S(_affine(rng, X)), ck=ck)
+        X, integer = _maybe_int(rng, _affine(rng, X))
+        return dict(type="dense2", t1=[rs(x) for x in _grid(rng, m1, uniform)], t2=[rs(x) for x in _grid(rng, m2, uniform)], X=_S(X), ck=ck, int=integer)
     m = rng.randint(3, 10)
     X, ck = _curves(rng, N, m)
-    return dict(type="dense1", t=[rs(x) for x in _grid(rng, m, uniform)], X=_S(_affine(rng, X)), ck=ck)
+    X, integer = _maybe_int(rng, _affine(rng, X))
+    return dict(type="dense1", t=[rs(x) for x in _grid(rng, m, uniform)], X=_S(X), ck=ck, int=integer)
 
 
 def _irr_comp(rng: Rng, N, enc=None, lp_only=False):
@@ -307,10 +324,10 @@ def witness_cases():
 def _build(comp):
     t = comp["type"]
     if t == "dense1":
-        return _dense([_Fv(comp["t"])], np.array(fl(_Fm(comp["X"]))))
+        return _dense([_Fv(comp["t"])], _arr(comp))
     if t == "dense2":
         t1, t2 = _Fv(comp["t1"]), _Fv(comp["t2"])
-        return _dense([t1, t2], np.array(fl(_Fm(comp["X"]))).reshape(-1, len(t1), len(t2)))
+        return _dense([t1, t2], _arr(comp).reshape(-1, len(t1), len(t2)))
     if t == "basis1":
         return _basis([_Fv(comp["t"])], fl(_Fm(comp["B"])), fl(_Fm(comp["C"])))
     if t == "basis2":
@@ -1109,6 +1126,8 @@ def classify(case, impl):
             tags.append("irregular:subselection")
     if case["kind"] == "multi":
         tags.append("multi:" + case["mix"])
+    if case.get("int") or any(c.get("int") for c in case.get("comps", [])):
+        tags.append("dtype:int64")
     if isinstance(impl, dict):
         s = impl.get("standardize_adv")
         if isinstance(s, dict) and s.get("hits"):
